@@ -15,27 +15,46 @@ LEVEL = "proof"
 HASHSEEDS = {"quick": [0, 1], "thorough": [0, 1, 2, 3]}
 BUDGET_S = {"quick": 120, "thorough": 1200}
 EXHAUSTIVE = {"quick": False, "thorough": False}
-RULE = ("random discrete data frames with 2..5 columns, declared cardinalities 1..4, 1..40 rows drawn from "
-        "skewed distributions so that many parent configurations (and, with state_names, some declared states) "
-        "never occur; int columns (become float states) and categorical columns, whose dtype may carry unused "
-        "categories (explicit categories= or a row-filtered bigger frame: not states unless state_names declare "
-        "them); for each data frame EVERY "
-        "(variable, parent subset) pair is a case: the five local scores are compared with the model "
-        "(rel. 1e-9) for ess in {1, 2.5, 5, 10}, under a parent permutation and a row permutation, and the "
-        "coded sums are compared with the closed forms of Spec.v; plus score(model) incl. structure prior on "
-        "random DAGs (BayesianNetwork and DAG), metrics.structure_score, ScoreCache call sequences with "
-        "eviction (max_size 1..3, hit/miss pattern and LRU order compared), and BDeu/BIC/AIC equality on "
-        "pairs of Markov-equivalent DAGs obtained by covered-arc reversals.  Non-trivial: the variable has "
-        ">= 2 declared states or >= 1 parent (local), the DAG has >= 1 edge (total/equiv), the call sequence "
-        "has a repeat (cache); distinct = distinct canonical input")
+RULE = ("random discrete data sets with 1..12 columns, declared cardinalities 1..4, 1..3000 rows drawn from skewed "
+        "distributions so that many parent configurations (and, with state_names, some declared states) never "
+        "occur.  The model sees state INDICES only; how the data set is presented to pgmpy is varied independently "
+        "and may never change a score: column names (letters; one a substring of another; pandas/pgmpy keywords such "
+        "as size, index, count, _weight; blanks and punctuation), column order in the frame, row index (RangeIndex, "
+        "shifted, permuted, gapped, duplicate labels, string labels), dtypes (int -> float states, float, bool, "
+        "object, categorical, ordered categorical), state labels (integers that are not their positions, 1-based, "
+        "negative, booleans, strings that are prefixes of each other or look like numbers/keywords, the same labels "
+        "in every column), categorical dtypes with UNUSED categories (explicit categories= or a row-filtered bigger "
+        "frame: not states unless state_names declare them), state_names as list/tuple, ints or floats, shuffled, "
+        "with an extra key.  Streams: (local) for each data frame EVERY (variable, parent subset) pair: the five "
+        "local scores vs the model (rel. 1e-9) for ess in {1, 2.5, 5, 10} (10 also as the default argument) and "
+        "{0.001, 0.1, 0.3, 64, 1000} on frames with up to 3000 rows, parents as list or tuple, under a parent "
+        "permutation and a row permutation, again after other calls on the same scorer objects, and the coded "
+        "sums vs the closed forms of Spec.v; the caller's frame, state_names and parent list are compared with a "
+        "snapshot afterwards; unknown variable / parent and state_names lacking an observed state must raise.  "
+        "(total) score(model) incl. structure prior and prior ratios on random DAGs (BayesianNetwork and DAG, "
+        "1..12 nodes, edgeless, node subsets), metrics.structure_score with default and explicit arguments and its "
+        "four rejection paths.  (cache) ScoreCache call sequences with eviction (max_size 0, 1..3, 10000, default; "
+        "values, hit/miss pattern, LRU order).  (session) ONE scorer, ONE ScoreCache and ONE graph object through "
+        "a sequence of local_score / score calls and graph edits by every mutator (add_edge(s_from), "
+        "remove_edge(s_from), remove_node(s_from), add_node(s_from), clear): after each step = the model on the "
+        "current graph = a fresh scorer on a fresh graph.  (equiv) BDeu/BIC/AIC equality on pairs of "
+        "Markov-equivalent DAGs obtained by covered-arc reversals.  Checklist classes that cannot apply: C (results "
+        "are immutable floats), I (no torch path in the scores), H beyond counts ~1e3 and ess 1e-3..1e3 (the inputs "
+        "are counts, not probabilities), integer/tuple column names (see ASSUMPTIONS).  Non-trivial: the variable "
+        "has >= 2 declared states or >= 1 parent (local), the DAG has >= 1 edge (total/equiv), the call sequence "
+        "has a repeat (cache), >= 2 operations (session); distinct = distinct canonical input incl. presentation")
 TRUSTED_BASE = ["pandas groupby/unstack/value_counts, numpy sum/log, scipy gammaln, math.lgamma (evaluation of the atoms)",
                 "float evaluation of the model's formal sums in this module (math.lgamma/math.log, fsum)"]
 ASSUMPTIONS = ["no missing values (NaN) and no weighted counts; column and state names are interned to indices by the harness",
+               "column names are strings: pandas reads integer names as level positions in Series.unstack(parents) "
+               "(K2Score(df with columns 1,2,0).local_score(1,[2,0]) raises ValueError on the unchanged tree)",
+               "ScoreCache is observed through local_score (the route named by the property); ScoreCache.score() uses "
+               "the base class's structure_prior (0), so ScoreCache(BDsScore).score(model) lacks the BDs prior",
                "floating point is not modelled: agreement is 1e-9 relative on the evaluated formal sums"]
 
 ESS = [1, 2.5, 5, 10]
 SCORES = ["k2", "bdeu", "bds", "bic", "aic"]
-COLS = ["A", "B", "C", "D", "E", "F"]
+COLS = ["A", "B", "C", "D", "E", "F", "G", "H", "I", "J", "K", "L"]
 
 
 # ------------------------------------------------------------------ data generation
@@ -310,16 +329,21 @@ def close(a, b, tol=1e-9):
 
 
 # ------------------------------------------------------------------ cases
+def local_opts(rng):
+    return {"ess_default": rng.random() < 0.5, "tuple_parents": rng.random() < 0.2, "recall": rng.random() < 0.3,
+            "reject": rng.random() < 0.15}
+
+
 def cases(tier, seed):
     rng = random.Random(seed)
     out = []
     quick = tier == "quick"
     # local scores: every (variable, parent subset) of each data frame
-    nframes = 24 if quick else 150
+    nframes = 14 if quick else 150
     for f in range(nframes):
         ncols = rng.choice([2, 3, 4, 4, 5, 5]) if not quick else rng.choice([2, 3, 4, 4, 5])
         nrows = rng.choice([1, 2, 3, 5, 8, 12, 20, 40])
-        data = gen_data(rng, ncols, nrows)
+        data = present(rng, gen_data(rng, ncols, nrows), plain=(f % 4 == 0))
         ess = ESS[f % len(ESS)]
         for x in range(ncols):
             others = [v for v in range(ncols) if v != x]
@@ -328,42 +352,67 @@ def cases(tier, seed):
                     ps = list(ps)
                     rng.shuffle(ps)
                     out.append({"kind": "local", "data": data, "x": x, "ps": ps, "ess": ess,
-                                "pseed": rng.randint(0, 10**6)})
+                                "pseed": rng.randint(0, 10**6), "opts": local_opts(rng)})
     # targeted: r >= 3 with unobserved configurations, unobserved declared child states
     for f in range(20 if quick else 200):
         ncols = rng.choice([2, 3, 4])
-        data = gen_data(rng, ncols, rng.choice([1, 2, 3, 4, 6]), declare_p=rng.choice([0.0, 0.5, 1.0]))
+        data = present(rng, gen_data(rng, ncols, rng.choice([1, 2, 3, 4, 6]), declare_p=rng.choice([0.0, 0.5, 1.0])))
         x = rng.randrange(ncols)
         others = [v for v in range(ncols) if v != x]
         ps = rng.sample(others, rng.randint(1, len(others)))
         out.append({"kind": "local", "data": data, "x": x, "ps": ps, "ess": rng.choice(ESS),
-                    "pseed": rng.randint(0, 10**6)})
+                    "pseed": rng.randint(0, 10**6), "opts": local_opts(rng)})
     # categorical dtype with unused categories (explicit categories= and row-filtered frames), with and without
     # state_names: without them only the observed values are states, with them every declared state counts
-    for f in range(60 if quick else 400):
+    for f in range(50 if quick else 400):
         ncols = rng.choice([2, 3, 3, 4])
         data = gen_data(rng, ncols, rng.choice([2, 3, 5, 8, 15]), declare_p=rng.choice([0.0, 0.0, 0.5, 1.0]),
                         force_cat=True)
+        data = present(rng, data, plain=(f % 3 == 0))
         x = rng.randrange(ncols)
         others = [v for v in range(ncols) if v != x]
         ps = rng.sample(others, rng.randint(0, len(others)))
         out.append({"kind": "local", "data": data, "x": x, "ps": ps, "ess": rng.choice(ESS),
-                    "pseed": rng.randint(0, 10**6)})
-    # score(model), priors, structure_score wrapper
+                    "pseed": rng.randint(0, 10**6), "opts": local_opts(rng)})
+    # degenerate sizes: a single column; magnitudes: thousands of rows (counts ~1e3), extreme equivalent sample sizes
+    for f in range(6 if quick else 40):
+        data = present(rng, gen_data(rng, 1, rng.choice([1, 2, 7])))
+        out.append({"kind": "local", "data": data, "x": 0, "ps": [], "ess": rng.choice(ESS),
+                    "pseed": rng.randint(0, 10**6), "opts": local_opts(rng)})
+        out.append({"kind": "total", "data": data, "nodes": [0], "edges": [], "ess": rng.choice(ESS),
+                    "cls": rng.choice(["bn", "dag"]), "opts": {"reject": True}})
+    for f in range(8 if quick else 60):
+        ncols = rng.choice([3, 4])
+        data = present(rng, gen_data(rng, ncols, rng.choice([300, 1000, 3000]) if f % 2 else rng.choice([5, 20])))
+        x = rng.randrange(ncols)
+        others = [v for v in range(ncols) if v != x]
+        ps = rng.sample(others, rng.randint(1, len(others)))
+        o = local_opts(rng)
+        o["big"] = True
+        out.append({"kind": "local", "data": data, "x": x, "ps": ps, "ess": rng.choice([0.001, 0.1, 0.3, 64, 1000]),
+                    "pseed": rng.randint(0, 10**6), "opts": o})
+    # score(model), priors, structure_score wrapper; every 5th frame has 9..12 columns
     for f in range(40 if quick else 400):
         ncols = rng.choice([2, 3, 4, 5, 6])
-        data = gen_data(rng, ncols, rng.choice([2, 4, 8, 16, 30]))
-        nodes, edges = common.rand_dag(rng, ncols)
+        big = f % 5 == 4
+        if big:
+            ncols = rng.choice([9, 10, 12])
+        data = present(rng, gen_data(rng, ncols, rng.choice([2, 4, 8, 16, 30]), maxcard=3 if big else 4))
+        nodes, edges = common.rand_dag(rng, ncols, p=(rng.choice([0.1, 0.2, 0.3]) if big else None))
         if rng.random() < 0.25 and ncols > 2:
             drop = rng.choice(nodes)
             nodes = [v for v in nodes if v != drop]
             edges = [e for e in edges if drop not in e]
+        if rng.random() < 0.1:
+            edges = []
         out.append({"kind": "total", "data": data, "nodes": nodes, "edges": [list(e) for e in edges],
-                    "ess": rng.choice(ESS), "cls": rng.choice(["bn", "dag"])})
+                    "ess": rng.choice(ESS), "cls": rng.choice(["bn", "dag"]),
+                    "opts": {"ess_default": rng.random() < 0.5, "method_default": rng.random() < 0.5,
+                             "reject": rng.random() < 0.3}})
     # ScoreCache
     for f in range(40 if quick else 400):
         ncols = rng.choice([3, 4, 5])
-        data = gen_data(rng, ncols, rng.choice([3, 6, 12, 25]))
+        data = present(rng, gen_data(rng, ncols, rng.choice([3, 6, 12, 25])))
         keys = []
         for _ in range(rng.randint(2, 5)):
             x = rng.randrange(ncols)
@@ -377,12 +426,20 @@ def cases(tier, seed):
                 rng.shuffle(ps)  # same parent set in another order: a different key
             calls.append([k[0], ps])
         out.append({"kind": "cache", "data": data, "score": rng.randrange(5), "ess": rng.choice(ESS),
-                    "max_size": rng.choice([0, 1, 1, 2, 2, 3, 10000]) if f % 10 == 0 else rng.choice([1, 2, 2, 3]),
+                    "max_size": rng.choice([0, 1, 1, 2, 2, 3, 10000, None]) if f % 8 == 0 else rng.choice([1, 2, 2, 3]),
                     "calls": calls})
+    # sessions on one scorer / one cache / one graph object with edits through every mutator
+    for f in range(30 if quick else 300):
+        ncols = rng.choice([3, 4, 5, 6])
+        data = present(rng, gen_data(rng, ncols, rng.choice([3, 6, 12, 25])))
+        nodes, edges, ops = gen_session(rng, ncols)
+        out.append({"kind": "session", "data": data, "score": rng.randrange(5), "ess": rng.choice(ESS),
+                    "cls": rng.choice(["bn", "dag"]), "max_size": rng.choice([1, 2, 3, 50]),
+                    "nodes": nodes, "edges": edges, "ops": ops})
     # Markov-equivalent pairs by covered-arc reversals
     for f in range(40 if quick else 400):
         ncols = rng.choice([2, 3, 4, 5])
-        data = gen_data(rng, ncols, rng.choice([3, 6, 12, 25]), allow_unobs_states=(f % 2 == 0))
+        data = present(rng, gen_data(rng, ncols, rng.choice([3, 6, 12, 25]), allow_unobs_states=(f % 2 == 0)))
         nodes, edges = common.rand_dag(rng, ncols, p=rng.choice([0.5, 0.7, 0.9]))
         out.append({"kind": "equiv", "data": data, "nodes": nodes, "edges": [list(e) for e in edges],
                     "ess": rng.choice(ESS), "rseed": rng.randint(0, 10**6)})
@@ -415,6 +472,12 @@ def shrink(case):
             c2 = dict(case)
             c2["calls"] = case["calls"][:i] + case["calls"][i + 1:]
             yield c2
+    if case["kind"] == "session" and len(case["ops"]) > 1:
+        for i in range(len(case["ops"]) - 1, -1, -1):
+            if case["ops"][i][0] in ("local", "add_node", "add_nodes_from") or i == len(case["ops"]) - 1:
+                c2 = dict(case)
+                c2["ops"] = case["ops"][:i] + case["ops"][i + 1:]
+                yield c2
     if case["kind"] in ("total", "equiv"):
         for i in range(len(case["edges"])):
             c2 = dict(case)
@@ -423,14 +486,24 @@ def shrink(case):
 
 
 # ------------------------------------------------------------------ local scores
-def cat_tags(data, df, cols):
+def cat_tags(data, df, cn, cols):
     """labels for categorical columns whose dtype carries categories that never occur"""
     out = set()
     for i in cols:
-        c = df[COLS[i]]
-        if data["style"][i] == "cat" and len(c.cat.categories) > c.nunique():
+        c = df[cn[i]]
+        if data["style"][i] in CATLIKE and len(c.cat.categories) > c.nunique():
             out.add("unused-categories:%s:%s" % (data.get("catmode", ["tight"] * len(data["cards"]))[i],
                                                   "state_names" if data["declared"][i] else "no-state_names"))
+    return sorted(out)
+
+
+def pres_tags(data, cols):
+    out = {"index=" + data.get("index", "range"), "names=" + data.get("namepool", "letters"),
+           "state_names-form=" + data.get("snform", "asis")}
+    for i in cols:
+        out.add("dtype=" + data["style"][i])
+    if data.get("colorder") and data["colorder"] != sorted(data["colorder"]):
+        out.add("columns-permuted")
     return sorted(out)
 
 
@@ -450,12 +523,25 @@ def model_local(drv, data, rows, x, ps, ess):
     return coded, spec
 
 
+def must_raise(fn, excs):
+    try:
+        fn()
+    except excs:
+        return True
+    return False
+
+
 def run_local(case, drv):
     data, x, ps, ess = case["data"], case["x"], case["ps"], case["ess"]
-    df, sn = build_df(data)
-    sc = scorers(df, sn, ess)
-    names = [COLS[p] for p in ps]
-    impl = {k: float(sc[k].local_score(COLS[x], list(names))) for k in SCORES}
+    opts = case.get("opts", {})
+    df, sn, cn = build_df(data)
+    sig0 = frame_sig(df, sn)
+    sc = scorers(df, sn, ess, opts.get("ess_default", False))
+    names = [cn[p] for p in ps]
+    arg = tuple(names) if opts.get("tuple_parents") else list(names)
+    impl = {}
+    for k in SCORES:
+        impl[k] = float(sc[k].local_score(cn[x], arg))   # the SAME argument object for all five scorers
     coded, spec = model_local(drv, data, data["rows"], x, ps, ess)
     q, qobs, r, robs = data_stats(data, x, ps)
     tags = ["local", "parents=%d" % len(ps), "ess=%s" % ess, "r=%d" % r,
@@ -464,9 +550,17 @@ def run_local(case, drv):
             "rows=%d" % len(data["rows"])]
     if r >= 3 and qobs < q:
         tags.append("r>=3&unobserved-config")
-    tags += cat_tags(data, df, [x] + ps)
+    tags += cat_tags(data, df, cn, [x] + ps) + pres_tags(data, [x] + ps)
+    if opts.get("ess_default") and ess == 10:
+        tags.append("ess-default-argument")
+    if opts.get("tuple_parents"):
+        tags.append("parents-as-tuple")
     key = common.canon_key(["local", data["cards"], sorted(map(tuple, data["rows"])), x, sorted(ps), ess,
-                            data["declared"]])
+                            data["declared"], data.get("names"), data.get("labels"), data.get("index")])
+    if list(arg) != names or frame_sig(df, sn) != sig0:
+        return bad("impl:argument-mutated", {"parents_after": list(arg), "parents_before": names,
+                                             "frame_or_state_names_changed": frame_sig(df, sn) != sig0},
+                   key=key, tags=tags)
     for i, k in enumerate(SCORES):
         m = ev(coded[i])
         if not close(impl[k], m):
@@ -479,7 +573,7 @@ def run_local(case, drv):
         perm = list(ps)
         while perm == ps:
             rng.shuffle(perm)
-        pimpl = {k: float(sc[k].local_score(COLS[x], [COLS[p] for p in perm])) for k in SCORES}
+        pimpl = {k: float(sc[k].local_score(cn[x], [cn[p] for p in perm])) for k in SCORES}
         pcoded, _ = model_local(drv, data, data["rows"], x, perm, ess)
         for i, k in enumerate(SCORES):
             if not close(pimpl[k], impl[k]):
@@ -489,19 +583,45 @@ def run_local(case, drv):
                 return bad("model:parent-order:" + k, {"x": x, "ps": ps, "perm": perm}, key=key, tags=tags)
         tags.append("parent-permutation")
     # row order
-    if len(data["rows"]) >= 2:
+    if len(data["rows"]) >= 2 and not opts.get("big"):
         rows2 = list(data["rows"])
         rng.shuffle(rows2)
-        df2, sn2 = build_df(data, rows2)
+        df2, sn2, _ = build_df(data, rows2)
         sc2 = scorers(df2, sn2, ess)
         rcoded, _ = model_local(drv, data, rows2, x, ps, ess)
         for i, k in enumerate(SCORES):
-            v = float(sc2[k].local_score(COLS[x], list(names)))
+            v = float(sc2[k].local_score(cn[x], list(names)))
             if not close(v, impl[k]):
                 return bad("impl:row-order:" + k, {"x": x, "ps": ps, "a": impl[k], "b": v}, key=key, tags=tags)
             if rcoded[i] != coded[i]:
                 return bad("model:row-order:" + k, {"x": x, "ps": ps}, key=key, tags=tags)
         tags.append("row-permutation")
+    # a second call on the same scorer objects after other calls gives the same number (no state between calls)
+    if opts.get("recall"):
+        others = [v for v in range(len(cn)) if v != x]
+        for k in SCORES:
+            sc[k].local_score(cn[x], [cn[v] for v in others[:1]])
+            sc[k].local_score(cn[others[0]] if others else cn[x], [])
+            v = float(sc[k].local_score(cn[x], list(names)))
+            if not close(v, impl[k], 1e-12):
+                return bad("impl:local_score-depends-on-earlier-calls:" + k, {"first": impl[k], "again": v},
+                           key=key, tags=tags)
+        tags.append("re-call-after-other-calls")
+    # calls that must be rejected
+    if opts.get("reject"):
+        from pgmpy.estimators import K2Score, BDeuScore
+        if not must_raise(lambda: sc["k2"].local_score("__no_such_column__", []), (KeyError, ValueError)):
+            return bad("impl:unknown-variable-accepted", {}, key=key, tags=tags)
+        if not must_raise(lambda: sc["bic"].local_score(cn[x], ["__no_such_column__"]), (KeyError, ValueError)):
+            return bad("impl:unknown-parent-accepted", {}, key=key, tags=tags)
+        lab = col_labels(data, x)
+        seen = sorted({rw[x] for rw in data["rows"]})
+        short = [lab[k] for k in range(data["cards"][x]) if k != seen[0]]
+        for cls in (K2Score, BDeuScore):
+            if not must_raise(lambda: cls(df, state_names={cn[x]: short}), ValueError):
+                return bad("impl:state_names-missing-an-observed-state-accepted", {"state_names": short},
+                           key=key, tags=tags)
+        tags.append("rejections")
     # closed forms (property statement): coded sum vs published definition
     finding = None
     for i, k in enumerate(SCORES):
@@ -509,7 +629,7 @@ def run_local(case, drv):
         if close(impl[k], s) and close(c, s):
             continue
         detail = {"score": k, "x": x, "ps": ps, "ess": ess, "impl": impl[k], "closed_form": s, "q": q,
-                  "q_obs": qobs, "r": r, "r_obs": robs, "cards": data["cards"], "rows": data["rows"]}
+                  "q_obs": qobs, "r": r, "r_obs": robs, "cards": data["cards"], "rows": data["rows"][:60]}
         # the only diagnosed class: BDsScore, some parent configuration unobserved, pgmpy == as-coded model
         # (checked above) but != Scutari's definition.  Everything else is an unlisted violation.
         if k == "bds" and qobs < q and close(impl[k], c) and not close(c, s):
@@ -523,26 +643,34 @@ def run_local(case, drv):
 
 
 # ------------------------------------------------------------------ score(model), priors, structure_score
-def build_graph(case, cls):
+def build_graph(case, cls, cn):
     from pgmpy.base import DAG
     from pgmpy.models import BayesianNetwork
     g = BayesianNetwork() if cls == "bn" else DAG()
-    g.add_nodes_from([COLS[v] for v in case["nodes"]])
-    g.add_edges_from([(COLS[u], COLS[v]) for u, v in case["edges"]])
+    g.add_nodes_from([cn[v] for v in case["nodes"]])
+    g.add_edges_from([(cn[u], cn[v]) for u, v in case["edges"]])
     return g
+
+
+def graph_sig(g):
+    return (list(g.nodes()), list(g.edges()))
 
 
 def run_total(case, drv):
     from pgmpy.metrics import structure_score
     data, ess = case["data"], case["ess"]
-    df, sn = build_df(data)
-    sc = scorers(df, sn, ess)
-    g = build_graph(case, case["cls"])
+    opts = case.get("opts", {})
+    df, sn, cn = build_df(data)
+    sig0 = frame_sig(df, sn)
+    sc = scorers(df, sn, ess, opts.get("ess_default", False))
+    g = build_graph(case, case["cls"], cn)
+    gs0 = graph_sig(g)
     same, totals = drv.call("c10_total", [data["cards"], data["rows"], case["nodes"], case["edges"], Fraction(ess)])
     tags = ["total", "nodes=%d" % len(case["nodes"]), "edges=%d" % len(case["edges"]), "graph=" + case["cls"],
-            "node-set=columns" if same else "node-subset"]
+            "node-set=columns" if same else "node-subset"] + pres_tags(data, case["nodes"])
     key = common.canon_key(["total", data["cards"], sorted(map(tuple, data["rows"])), sorted(case["nodes"]),
-                            sorted(map(tuple, case["edges"])), ess, data["declared"]])
+                            sorted(map(tuple, case["edges"])), ess, data["declared"], data.get("names"),
+                            data.get("labels"), data.get("index")])
     for i, k in enumerate(SCORES):
         v = float(sc[k].score(g))
         m = ev(totals[i])
@@ -562,10 +690,12 @@ def run_total(case, drv):
         kw = {}
         if sn:
             kw["state_names"] = sn
-        if k in ("bdeu", "bds"):
+        if k in ("bdeu", "bds") and not (opts.get("ess_default") and ess == 10):
             kw["equivalent_sample_size"] = ess
+        if not (k == "bic" and opts.get("method_default")):
+            kw["scoring_method"] = k
         try:
-            v = float(structure_score(g, df, scoring_method=k, **kw))
+            v = float(structure_score(g, df, **kw))
             err = None
         except ValueError:
             v, err = None, "value"
@@ -575,6 +705,17 @@ def run_total(case, drv):
                            key=key, tags=tags)
         elif err != "value":
             return bad("impl!=model:structure_score-accepts-missing-columns", {"impl": v}, key=key, tags=tags)
+    if opts.get("reject"):
+        for what, fn in (("unsupported-method", lambda: structure_score(g, df, scoring_method="aic")),
+                         ("unsupported-method", lambda: structure_score(g, df, scoring_method="BIC")),
+                         ("data-not-a-frame", lambda: structure_score(g, df.values, scoring_method="bic")),
+                         ("model-not-a-dag", lambda: structure_score(list(g.edges()), df, scoring_method="bic"))):
+            if not must_raise(fn, ValueError):
+                return bad("impl:structure_score-accepts-" + what, {}, key=key, tags=tags)
+        tags.append("rejections")
+    if frame_sig(df, sn) != sig0 or graph_sig(g) != gs0:
+        return bad("impl:argument-mutated", {"frame_or_state_names": frame_sig(df, sn) != sig0,
+                                             "graph": graph_sig(g) != gs0}, key=key, tags=tags)
     return ok(nontrivial=len(case["edges"]) >= 1, key=key, tags=tags)
 
 
@@ -582,7 +723,7 @@ def run_total(case, drv):
 def run_cache(case, drv):
     from pgmpy.estimators import ScoreCache
     data, ess, code, ms = case["data"], case["ess"], case["score"], case["max_size"]
-    df, sn = build_df(data)
+    df, sn, cn = build_df(data)
     name = SCORES[code]
     base = scorers(df, sn, ess)[name]
     fresh = scorers(df, sn, ess)[name]
@@ -594,14 +735,19 @@ def run_cache(case, drv):
         return orig(variable, parents)
 
     base.local_score = counting
-    cache = ScoreCache(base, df, max_size=ms, **({"state_names": sn} if sn else {}))
-    tags = ["cache", "max_size=%d" % ms, "score=" + name, "calls=%d" % len(case["calls"])]
+    ckw = {"state_names": sn} if sn else {}
+    if ms is not None:
+        ckw["max_size"] = ms
+    cache = ScoreCache(base, df, **ckw)
+    msn = 10000 if ms is None else ms
+    tags = ["cache", "max_size=%s" % ("default" if ms is None else ms), "score=" + name,
+            "calls=%d" % len(case["calls"])] + pres_tags(data, [])
     key = common.canon_key(["cache", data["cards"], sorted(map(tuple, data["rows"])), code, ess, ms, case["calls"],
-                            data["declared"]])
-    st, rep = drv.call_e("c10_cache", [data["cards"], data["rows"], code, Fraction(ess), ms, case["calls"]])
+                            data["declared"], data.get("names")])
+    st, rep = drv.call_e("c10_cache", [data["cards"], data["rows"], code, Fraction(ess), msn, case["calls"]])
     if ms == 0:
         try:
-            cache.local_score(COLS[case["calls"][0][0]], [COLS[p] for p in case["calls"][0][1]])
+            cache.local_score(cn[case["calls"][0][0]], [cn[p] for p in case["calls"][0][1]])
             return bad("impl!=model:cache-max_size-0-accepted", {}, key=key, tags=tags)
         except TypeError:
             pass
@@ -614,10 +760,13 @@ def run_cache(case, drv):
     hits = 0
     for n, (x, ps) in enumerate(case["calls"]):
         before = counter[0]
-        v = float(cache.local_score(COLS[x], [COLS[p] for p in ps]))
+        arg = [cn[p] for p in ps]
+        v = float(cache.local_score(cn[x], arg))
+        if arg != [cn[p] for p in ps]:
+            return bad("impl:argument-mutated", {"parents_after": arg}, key=key, tags=tags)
         hit = counter[0] == before
         hits += hit
-        u = float(fresh.local_score(COLS[x], [COLS[p] for p in ps]))
+        u = float(fresh.local_score(cn[x], [cn[p] for p in ps]))
         if not close(v, u, 1e-12):
             return bad("impl:cache-not-transparent", {"call": n, "cached": v, "uncached": u, "calls": case["calls"]},
                        key=key, tags=tags)
@@ -631,12 +780,150 @@ def run_cache(case, drv):
     order = []
     link = lru.head[1]
     while link is not lru.tail:
-        order.append([COLS.index(link[2][0]), [COLS.index(p) for p in link[2][1]]])
+        order.append([cn.index(link[2][0]), [cn.index(p) for p in link[2][1]]])
         link = link[1]
-    if order != final or len(lru.mapping) != len(final) or len(final) > ms:
+    if order != final or len(lru.mapping) != len(final) or len(final) > msn:
         return bad("impl!=model:cache-lru-order", {"impl": order, "model": final, "max_size": ms}, key=key, tags=tags)
     evicted = (len(case["calls"]) - hits) > len(final)
     return ok(nontrivial=hits > 0, key=key, tags=tags + (["eviction"] if evicted else []) + (["hit"] if hits else []))
+
+
+# ------------------------------------------------------------------ sessions: one scorer, one cache, one graph object
+def run_session(case, drv):
+    """one plain scorer, one ScoreCache (small max_size) and ONE graph object live through a sequence of
+    local_score / score calls and graph edits through every mutator; after each step all three agree with the
+    model on the CURRENT graph and with a freshly built scorer on a freshly built graph"""
+    from pgmpy.estimators import ScoreCache
+    data, ess, code = case["data"], case["ess"], case["score"]
+    df, sn, cn = build_df(data)
+    name = SCORES[code]
+    plain = scorers(df, sn, ess)[name]
+    cached = ScoreCache(scorers(df, sn, ess)[name], df, max_size=case["max_size"], **({"state_names": sn} if sn else {}))
+    g = build_graph(case, case["cls"], cn)
+    tags = ["session", "score=" + name, "graph=" + case["cls"], "ops=%d" % len(case["ops"])] + pres_tags(data, [])
+    key = common.canon_key(["session", data["cards"], sorted(map(tuple, data["rows"])), code, ess, case["ops"],
+                            case["nodes"], case["edges"], data.get("names")])
+    idx = {nm: i for i, nm in enumerate(cn)}
+
+    def compare_score(step):
+        nodes = [idx[v] for v in g.nodes()]
+        edges = [[idx[u], idx[v]] for u, v in g.edges()]
+        _, totals = drv.call("c10_total", [data["cards"], data["rows"], nodes, edges, Fraction(ess)])
+        m = ev(totals[code])
+        f = float(scorers(df, sn, ess)[name].score(build_graph({"nodes": nodes, "edges": edges}, case["cls"], cn)))
+        # ScoreCache is observed through local_score (the property's route): sum over the nodes + the scorer's prior
+        vals = (("plain", float(plain.score(g))),
+                ("cached", float(sum(cached.local_score(n, list(g.predecessors(n))) for n in g.nodes())
+                                 + plain.structure_prior(g))))
+        for who, v in vals:
+            if not close(v, m) or not close(v, f, 1e-9):
+                return bad("impl!=model:session-score:" + who, {"step": step, "op": case["ops"][step] if step >= 0 else "init",
+                                                                 "impl": v, "model": m, "fresh": f, "nodes": nodes,
+                                                                 "edges": edges}, key=key, tags=tags)
+        return None
+
+    b = compare_score(-1)
+    if b:
+        return b
+    for step, op in enumerate(case["ops"]):
+        kind = op[0]
+        tags.append("op=" + kind)
+        if kind == "local":
+            x, ps = op[1], op[2]
+            coded, _ = model_local(drv, data, data["rows"], x, ps, ess)
+            m = ev(coded[code])
+            for who, obj in (("plain", plain), ("cached", cached)):
+                v = float(obj.local_score(cn[x], [cn[p] for p in ps]))
+                if not close(v, m):
+                    return bad("impl!=model:session-local:" + who, {"step": step, "op": op, "impl": v, "model": m},
+                               key=key, tags=tags)
+            continue
+        if kind == "add_edge":
+            g.add_edge(cn[op[1]], cn[op[2]])
+        elif kind == "add_edges_from":
+            g.add_edges_from([(cn[u], cn[v]) for u, v in op[1]])
+        elif kind == "remove_edge":
+            g.remove_edge(cn[op[1]], cn[op[2]])
+        elif kind == "remove_edges_from":
+            g.remove_edges_from([(cn[u], cn[v]) for u, v in op[1]])
+        elif kind == "remove_node":
+            g.remove_node(cn[op[1]])
+        elif kind == "remove_nodes_from":
+            g.remove_nodes_from([cn[v] for v in op[1]])
+        elif kind == "add_node":
+            g.add_node(cn[op[1]])
+        elif kind == "add_nodes_from":
+            g.add_nodes_from([cn[v] for v in op[1]])
+        elif kind == "clear":
+            g.clear()
+        b = compare_score(step)
+        if b:
+            return b
+    return ok(nontrivial=len(case["ops"]) >= 2, key=key, tags=sorted(set(tags)))
+
+
+def gen_session(rng, ncols):
+    """a valid op sequence: edges always go forward in a hidden order, so the graph stays acyclic"""
+    order = list(range(ncols))
+    rng.shuffle(order)
+    pos = {v: i for i, v in enumerate(order)}
+    nodes0, edges0 = common.rand_dag(rng, ncols, p=0.4)
+    edges0 = [(u, v) if pos[u] < pos[v] else (v, u) for (u, v) in edges0]
+    nodes, edges = set(nodes0), set(edges0)
+    ops = []
+
+    def fwd():
+        u, v = rng.sample(range(ncols), 2)
+        return (u, v) if pos[u] < pos[v] else (v, u)
+
+    for _ in range(rng.randint(4, 12)):
+        k = rng.choice(["local", "local", "add_edge", "add_edge", "add_edges_from", "remove_edge", "remove_edges_from",
+                        "remove_node", "remove_nodes_from", "add_node", "add_nodes_from", "clear"])
+        if k == "local":
+            x = rng.randrange(ncols)
+            others = [v for v in range(ncols) if v != x]
+            ops.append(["local", x, rng.sample(others, rng.randint(0, min(3, len(others))))])
+        elif k == "add_edge":
+            u, v = fwd()
+            ops.append(["add_edge", u, v])
+            nodes |= {u, v}
+            edges.add((u, v))
+        elif k == "add_edges_from":
+            es = list({fwd() for _ in range(rng.randint(1, 3))})
+            ops.append(["add_edges_from", [list(e) for e in es]])
+            for u, v in es:
+                nodes |= {u, v}
+                edges.add((u, v))
+        elif k == "remove_edge" and edges:
+            e = rng.choice(sorted(edges))
+            ops.append(["remove_edge", e[0], e[1]])
+            edges.discard(e)
+        elif k == "remove_edges_from" and edges:
+            es = rng.sample(sorted(edges), rng.randint(1, min(3, len(edges))))
+            ops.append(["remove_edges_from", [list(e) for e in es]])
+            edges -= set(es)
+        elif k == "remove_node" and nodes:
+            v = rng.choice(sorted(nodes))
+            ops.append(["remove_node", v])
+            nodes.discard(v)
+            edges = {e for e in edges if v not in e}
+        elif k == "remove_nodes_from" and nodes:
+            vs = rng.sample(sorted(nodes), rng.randint(1, min(2, len(nodes))))
+            ops.append(["remove_nodes_from", vs])
+            nodes -= set(vs)
+            edges = {e for e in edges if not (set(e) & set(vs))}
+        elif k == "add_node":
+            v = rng.randrange(ncols)
+            ops.append(["add_node", v])
+            nodes.add(v)
+        elif k == "add_nodes_from":
+            vs = rng.sample(range(ncols), rng.randint(1, min(3, ncols)))
+            ops.append(["add_nodes_from", vs])
+            nodes |= set(vs)
+        elif k == "clear" and rng.random() < 0.4:
+            ops.append(["clear"])
+            nodes, edges = set(), set()
+    return nodes0, [list(e) for e in edges0], ops
 
 
 # ------------------------------------------------------------------ score equivalence
@@ -660,17 +947,17 @@ def run_equiv(case, drv):
         edges2 = [((e[1], e[0]) if f == e else f) for f in edges2]
         nrev += 1
     rng.shuffle(edges2)
-    df, sn = build_df(data)
+    df, sn, cn = build_df(data)
     sc = scorers(df, sn, ess)
-    g1 = build_graph(case, "bn")
+    g1 = build_graph(case, "bn", cn)
     c2 = dict(case)
     c2["edges"] = [list(e) for e in edges2]
-    g2 = build_graph(c2, "dag")
+    g2 = build_graph(c2, "dag", cn)
     _, t1 = drv.call("c10_total", [data["cards"], data["rows"], nodes, case["edges"], Fraction(ess)])
     _, t2 = drv.call("c10_total", [data["cards"], data["rows"], nodes, c2["edges"], Fraction(ess)])
-    tags = ["equiv", "reversals=%d" % nrev, "edges=%d" % len(edges)]
+    tags = ["equiv", "reversals=%d" % nrev, "edges=%d" % len(edges)] + pres_tags(data, nodes)
     key = common.canon_key(["equiv", data["cards"], sorted(map(tuple, data["rows"])), sorted(edges), sorted(edges2),
-                            ess, data["declared"]])
+                            ess, data["declared"], data.get("names"), data.get("labels")])
     for i, k in enumerate(SCORES):
         a, b = float(sc[k].score(g1)), float(sc[k].score(g2))
         if not close(a, ev(t1[i])) or not close(b, ev(t2[i])):
@@ -694,4 +981,6 @@ def run_case(case, drv):
         return run_total(case, drv)
     if k == "cache":
         return run_cache(case, drv)
+    if k == "session":
+        return run_session(case, drv)
     return run_equiv(case, drv)
